@@ -22,9 +22,14 @@ class SuffixTrie(object):
         # Iterating over the suffix parts in reverse order
         for part in reversed(suffix.split(".")):
 
+            # NOTE: an exception rule makes its parent the suffix of the
+            # excepted label, but does not make this parent a rule by itself
             if part.startswith("!"):
-                node.exception = part[1:]
-                break
+                if node.exception is None:
+                    node.exception = set()
+
+                node.exception.add(part[1:])
+                return
 
             # To save up some RAM, we initialize the children dict only
             # when strictly necessary
@@ -67,12 +72,14 @@ class SuffixTrie(object):
         for i in range(l - 1, -1, -1):
             part = parts[i]
 
-            # Cannot go deeper
-            if node.children is None:
+            # Exception
+            if node.exception is not None and part in node.exception:
+                suffix_length = current_length
+                match = node
                 break
 
-            # Exception
-            if part == node.exception:
+            # Cannot go deeper
+            if node.children is None:
                 break
 
             child = node.children.get(part)
@@ -94,7 +101,7 @@ class SuffixTrie(object):
                 match = node
 
         # Checking the node we finished on is a leaf and is one we allow
-        if match is None or not match.leaf:
+        if match is None or suffix_length == 0:
             return None
 
         # hostname = suffix ?
